@@ -22,3 +22,7 @@ ext.E1;int -> [2]string
 [2]*int -> int
 struct{F0 [2]*int;F1 string} -> string
 [2]*S0;int -> int
+# sign of a zero imaginary / real part of a complex number inside a bucket-form key (seeded change C18-m5)
+complex128;[]int -> int
+[]complex128 -> string
+*complex128;string -> int;bool
